@@ -60,6 +60,31 @@ def program_cases(thorough):
                 c.op('*', 'get', f=0, form='vara', v=1, s=[0], c=[12], coll=1, mem='short')
                 c.op('*', 'close', f=0)
                 out.append(('QUEUE', c))
+    # two interleaved strided nonblocking requests completed by one wait_all (the flattening path sizes its segment table in one pass and fills it
+    # in another): every stride vector in {1,2}^n on fixed-size and record variables of 2 and 3 dimensions, iput / iget / bput
+    VARS = [('f2', 'int', [1, 2], [4, 6]), ('r2', 'int', [0, 2], [4, 6]), ('r3', 'short', [0, 1, 2], [4, 4, 6]), ('f3', 'short', [3, 1, 2], [2, 4, 6])]
+    for kind in ('iput', 'iget', 'bput'):
+        c = Case('SAN-interleaved-%s' % kind, 1)
+        c.op('*', 'create', f=0, path='i.nc', fmt=2)
+        c.op('*', 'def_dim', f=0, name='t', unlim=1); c.op('*', 'def_dim', f=0, name='y', len=4); c.op('*', 'def_dim', f=0, name='x', len=6); c.op('*', 'def_dim', f=0, name='z', len=2)
+        for n, xt, dd, sh in VARS: c.op('*', 'def_var', f=0, name=n, xtype=xt, dims=dd)
+        c.op('*', 'enddef', f=0)
+        for v, (n, xt, dd, sh) in enumerate(VARS): c.op('*', 'put', f=0, form='vara', v=v, s=[0] * len(sh), c=sh, coll=1, mem=xt, tag=3 + v, scale=1)
+        c.op('*', 'buffer_attach', f=0, size=65536)
+        slot = 0
+        for v, (n, xt, dd, sh) in enumerate(VARS):
+            for strides in itertools.product((1, 2), repeat=len(sh)):
+                cnt = [(l + st - 1) // st for l, st in zip(sh, strides)]; cnt[-1] = 3
+                sa = [0] * len(sh); sb = [0] * len(sh); sb[-1] = 1 if strides[-1] == 2 else 3
+                for st0 in (sa, sb):
+                    kw = dict(f=0, form='vars', v=v, s=st0, c=cnt, st=list(strides), mem=xt, nb='b' if kind == 'bput' else 'i', req=slot % 60)
+                    if kind != 'iget': kw.update(tag=7 + slot % 60, scale=1)
+                    c.op('*', 'get' if kind == 'iget' else 'put', **kw); slot += 1
+                c.op('*', 'wait', f=0, kind='ALL', all=1)
+        for v, (n, xt, dd, sh) in enumerate(VARS): c.op('*', 'get', f=0, form='vara', v=v, s=[0] * len(sh), c=sh, coll=1, mem=xt)
+        c.op('*', 'buffer_detach', f=0)
+        c.op('*', 'close', f=0)
+        out.append(('INTERLEAVED', c))
     import checks.c17 as c17
     if thorough:
         out += [('C15', x[0]) for x in c15.build_cases('d2', 1, 0, 'vars', False, list(c15.tuples_for([2, 3], False))) + c15.build_cases('rec', 1, 1, 'vars', True, list(c15.tuples_for([2, 2], False)))]
@@ -173,7 +198,7 @@ def main(tier=None):
     ck.cov['evaluations'] = nprog + len(mal)
     ck.cov['programs_under_sanitizers'] = nprog; ck.cov['malformed_inputs'] = len(mal); ck.cov['malformed_accepted_and_consistent'] = accepted
     ck.cov['distinct_nontrivial'] = len(set(x[0].ops[-6] if len(x[0].ops) > 6 else x[0].name for x in mal))
-    ck.cov['rule'] = ('(a) the quick-tier cases of C01, C02, C03, C06, C08, C09, C11, C12, C13, C16 (thorough: + C15, full C01 layouts) executed on the library built with -fsanitize=address,undefined: any report or signal is a violation keyed by '
+    ck.cov['rule'] = ('(a) the quick-tier cases of C01, C02, C03, C06, C08, C09, C11, C12, C13, C16 (thorough: + C15, full C01 layouts) plus valid unusual files of C04, request queues of 1023 / 1024 / 1025 / 2048 pending sub-requests, and pairs of interleaved strided nonblocking requests (every stride vector in {1,2}^n on fixed and record variables of 2-3 dimensions, iput / iget / bput, one wait_all) executed on the library built with -fsanitize=address,undefined: any report or signal is a violation keyed by '
                       'error kind and innermost /repo/src frame. (b) 9 encoder-made seed files (3 formats x minimal / dims+atts+vars / record file): every truncation length, every 4-byte header word x 14 extreme values, every 8-byte window x 7 values'
                       '%s, opened with header chunk default/36%s, followed by a full inquiry sweep and reads: no report, no signal, <= 5 s and <= 256 MiB per input, open fails with a netCDF error or the metadata is self-consistent' % (
                           ', all pairs of 4-byte substitutions for the minimal seeds' if thorough else '', '/64' if thorough else ''))
